@@ -5,11 +5,20 @@
 //! `persist_*` operations for one tenant with `flush` / `checkpoint` / clean `restart`
 //! events is executed once without a crash (which also lists the H4 points it passes) and
 //! then once per crash position: at every H4 point inside an operation and after every
-//! operation.  A crash = unwind at the point, drop the manager, reopen on the same
-//! directory, `recover(tenant)`.  Oracle: a ModelKv of the acknowledged operations; the
-//! operation in flight at the crash may be applied wholly or not at all.
+//! operation.  Two kinds of crash, chosen per case (`real_kill` knob):
+//! * unwind: unwind at the point, drop the manager (RocksDB and the WAL close cleanly),
+//!   reopen on the same directory, `recover(tenant)`;
+//! * real kill: the process up to the crash runs in a `fork()`ed child (`kit::forkproc`)
+//!   that opens the manager, executes the history and dies by `_exit` at the point / after
+//!   the operation — nothing is closed, flushed or dropped; it reports every acknowledged
+//!   operation through a pipe.  The parent reaps it, reopens the directory and recovers.
+//!   This kind also has the position "after the last operation" (a kill instead of the
+//!   clean shutdown of the crash-free execution).
+//! Oracle: a ModelKv of the acknowledged operations; the operation in flight at the crash
+//! may be applied wholly or not at all.
 
 use crate::kit::core::*;
+use crate::kit::forkproc::{self, End, Report};
 use crate::kit::model::*;
 use crate::kit::pers::*;
 use crate::kit::points::{self, PointCtl};
@@ -18,6 +27,8 @@ use samyama::persistence::{PersistenceManager, ResourceQuotas};
 use serde_json::{json, Map, Value};
 use std::collections::{BTreeMap, BTreeSet};
 use std::path::Path;
+use std::sync::atomic::{AtomicU64, Ordering};
+use std::sync::Arc;
 
 pub struct C16;
 
@@ -294,20 +305,171 @@ enum Crash {
 }
 
 impl Crash {
-    fn pin(&self) -> Value {
+    fn pin(&self, kill: bool) -> Value {
+        let how = if kill { "kill" } else { "unwind" };
         match self {
             Crash::None => json!({"crash":"none"}),
-            Crash::AtPoint(k) => json!({"crash":"point","k":k}),
-            Crash::AfterOp(j) => json!({"crash":"after_op","j":j}),
+            Crash::AtPoint(k) => json!({"crash":"point","k":k,"how":how}),
+            Crash::AfterOp(j) => json!({"crash":"after_op","j":j,"how":how}),
         }
     }
-    fn from_pin(p: &Value) -> Crash {
+    fn from_pin(p: &Value) -> (Crash, bool) {
+        let kill = p.get("how").and_then(|x| x.as_str()) == Some("kill");
         match p.get("crash").and_then(|x| x.as_str()) {
-            Some("point") => Crash::AtPoint(u(p, "k")),
-            Some("after_op") => Crash::AfterOp(u(p, "j")),
-            _ => Crash::None,
+            Some("point") => (Crash::AtPoint(u(p, "k")), kill),
+            Some("after_op") => (Crash::AfterOp(u(p, "j")), kill),
+            _ => (Crash::None, false),
         }
     }
+}
+
+// ------------------------------------------------------------------------------------
+// The simulated process as a real child process (see kit::forkproc)
+
+/// Point handler of the child: reports every point, dies at the chosen one.
+struct KillAt {
+    rep: Report,
+    seen: AtomicU64,
+    at: Option<u64>,
+}
+
+impl samyama::verif::PointHandler for KillAt {
+    fn at(&self, name: &str) {
+        let i = self.seen.fetch_add(1, Ordering::SeqCst);
+        if self.at == Some(i) {
+            self.rep.line(&format!("kill {name}"));
+            self.rep.die(forkproc::KILLED);
+        }
+        self.rep.line(&format!("point {name}"));
+    }
+}
+
+/// Body of the child: open, run the history, die at the crash position WITHOUT closing
+/// anything.  Records: `opened`, `restarted <step>`, `begin <step>`, `ack <step>`,
+/// `err <step> <msg>`, `panic <step> <msg>`, `point <name>`, `kill <name>`, `openerr <msg>`,
+/// `end`.  An `ack` is written after the operation returned Ok and before anything else
+/// happens, so the set of `ack` records is exactly the set of acknowledged operations.
+fn child_process(case: &Case, crash: Crash, dir: &Path, tenant: &str, rep: Report) -> ! {
+    let h = Arc::new(KillAt { rep, seen: AtomicU64::new(0), at: if let Crash::AtPoint(k) = crash { Some(k) } else { None } });
+    samyama::verif::set_point_handler(Some(h as Arc<dyn samyama::verif::PointHandler>));
+    let mut pm = match open(dir, tenant) {
+        Ok(p) => p,
+        Err(e) => {
+            rep.line(&format!("openerr {e}"));
+            rep.die(0)
+        }
+    };
+    rep.line("opened");
+    let mut m = Model::default();
+    let mut ops_done = 0u64;
+    for (step, ev) in case.events.iter().enumerate() {
+        let Some((o, _)) = resolve(ev, &m) else { continue };
+        if let Op::Restart = o {
+            drop(pm); // clean shutdown inside the child
+            pm = match open(dir, tenant) {
+                Ok(p) => p,
+                Err(e) => {
+                    rep.line(&format!("openerr {e}"));
+                    rep.die(0)
+                }
+            };
+            rep.line(&format!("restarted {step}"));
+            continue;
+        }
+        rep.line(&format!("begin {step}"));
+        match std::panic::catch_unwind(std::panic::AssertUnwindSafe(|| exec(&o, &pm, tenant))) {
+            Ok(Ok(())) => {
+                apply(&o, &mut m);
+                ops_done += 1;
+                rep.line(&format!("ack {step}"));
+                if crash == Crash::AfterOp(ops_done) {
+                    rep.die(forkproc::KILLED);
+                }
+            }
+            Ok(Err(e)) => {
+                rep.line(&format!("err {step} {e}"));
+                rep.die(0)
+            }
+            Err(_) => {
+                rep.line(&format!("panic {step} {}", crate::kit::runner::last_panic()));
+                rep.die(forkproc::PANICKED)
+            }
+        }
+    }
+    rep.line("end");
+    rep.die(0) // the manager is still open: this too is a kill, after the last operation
+}
+
+/// What the parent knows about the dead child.
+#[derive(Default)]
+struct ChildLog {
+    opened: bool,
+    open_err: Option<String>,
+    restarted: BTreeSet<usize>,
+    acked: BTreeSet<usize>,
+    errs: BTreeMap<usize, String>,
+    panics: BTreeMap<usize, String>,
+    /// step in flight when the child died, and the point at which it was killed
+    in_flight: Option<(usize, Option<String>)>,
+    points: Vec<String>,
+    ended: bool,
+    end: Option<End>,
+    raw: String,
+}
+
+fn parse_child(lines: &[String], end: End) -> ChildLog {
+    let mut l = ChildLog { end: Some(end), raw: lines.join(" | "), ..Default::default() };
+    let mut begun: Option<usize> = None;
+    for line in lines {
+        let mut it = line.splitn(3, ' ');
+        let tag = it.next().unwrap_or("");
+        let a = it.next().unwrap_or("");
+        let rest = it.next().unwrap_or("");
+        let step = a.parse::<usize>().ok();
+        match tag {
+            "opened" => l.opened = true,
+            "openerr" => l.open_err = Some(format!("{a} {rest}")),
+            "restarted" => {
+                if let Some(s) = step {
+                    l.restarted.insert(s);
+                }
+            }
+            "begin" => begun = step,
+            "ack" => {
+                if let Some(s) = step {
+                    l.acked.insert(s);
+                }
+                begun = None;
+            }
+            "err" => {
+                if let Some(s) = step {
+                    l.errs.insert(s, rest.to_string());
+                }
+                begun = None;
+            }
+            "panic" => {
+                if let Some(s) = step {
+                    l.panics.insert(s, rest.to_string());
+                }
+                begun = None;
+            }
+            "point" => l.points.push(a.to_string()),
+            "kill" => {
+                l.points.push(a.to_string());
+                if let Some(s) = begun {
+                    l.in_flight = Some((s, Some(a.to_string())));
+                }
+            }
+            "end" => l.ended = true,
+            _ => {}
+        }
+    }
+    if l.in_flight.is_none() {
+        if let Some(s) = begun {
+            l.in_flight = Some((s, None)); // died inside an operation without our kill
+        }
+    }
+    l
 }
 
 #[derive(Default)]
@@ -321,6 +483,8 @@ struct Sub {
     summary: String,
     sig_parts: Vec<String>,
     had_pointed_op: bool,
+    /// the crash of this sub-execution was a real kill of a child process
+    kill: bool,
 }
 
 struct Runner<'a> {
@@ -329,18 +493,21 @@ struct Runner<'a> {
     pm: Option<PersistenceManager>,
     sub: Sub,
     crash: Crash,
+    kill: bool,
 }
 
 impl<'a> Runner<'a> {
     fn fail(&mut self, sig: String, detail: String, step: usize) {
         if self.sub.violations.len() < 6 {
-            self.sub.violations.push(Violation::new(sig, detail, step).with_pin(self.crash.pin()));
+            self.sub.violations.push(Violation::new(sig, detail, step).with_pin(self.crash.pin(self.kill)));
         }
     }
 
     /// Drop the process' manager, reopen, recover, compare with the candidate states.
     /// Returns the index of the matching candidate.
     fn restart_and_check(&mut self, how: &str, candidates: &[&Model], step: usize) -> Option<usize> {
+        // state class of the signature: what preceded this recovery
+        let after = if how.starts_with("real kill") { "/after_real_kill" } else { "" };
         self.pm = None; // releases RocksDB's LOCK
         match open(self.dir, self.tenant) {
             Ok(pm) => self.pm = Some(pm),
@@ -380,38 +547,90 @@ impl<'a> Runner<'a> {
         for (class, detail) in d {
             if seen.insert(class.clone()) {
                 let extra = if candidates.len() > 1 { " (neither the state before nor after the operation in flight matches)" } else { "" };
-                self.fail(format!("C16/recover/{class}"), format!("{how}: {detail}{extra}"), step);
+                self.fail(format!("C16/recover/{class}{after}"), format!("{how}: {detail}{extra}"), step);
             }
         }
         None
     }
 }
 
-fn run_history(case: &Case, crash: Crash, dir: &Path) -> Sub {
+/// Result of one operation of the simulated process.
+enum Done {
+    /// returned Ok / Err
+    Ret(Result<(), String>),
+    /// the process died inside the operation, at this point (empty = unknown)
+    Died(String),
+}
+
+fn run_history(case: &Case, crash: Crash, kill: bool, dir: &Path) -> Sub {
     let tenant_s = TENANTS[(case.knob_u64("tenant", 0) % 2) as usize].to_string();
     let continue_after = case.knob_bool("continue_after_crash", false);
+    let kill = kill && crash != Crash::None;
+    let word = if kill { "real kill" } else { "crash" };
+    let mut r = Runner { dir, tenant: &tenant_s, pm: None, sub: Sub { kill, ..Sub::default() }, crash, kill };
+    // ---- real kill: everything up to the crash happens in a child process, now
+    let mut child: Option<ChildLog> = None;
+    if kill {
+        let dead = match forkproc::run_killable(|rep| child_process(case, crash, dir, &tenant_s, rep)) {
+            Ok(d) => d,
+            Err(e) => panic!("C16 harness: {e}"),
+        };
+        if dead.forks > 1 {
+            r.sub.probes.push("fork_repeated_child_not_ready");
+        }
+        let log = parse_child(&dead.lines, dead.end.clone());
+        match &dead.end {
+            End::Exited(0) | End::Exited(forkproc::KILLED) => {}
+            End::Exited(forkproc::PANICKED) if !log.panics.is_empty() => {
+                let (_, msg) = log.panics.iter().next().unwrap();
+                panic!("{msg}"); // same treatment as a panic of the code under test in this process
+            }
+            other => panic!("C16 harness: forked process ended unexpectedly ({other:?}); it reported: {}", log.raw),
+        }
+        if let Some(e) = &log.open_err {
+            let sig = if log.opened { "C16/reopen/error" } else { "C16/open/error" };
+            r.fail(sig.into(), format!("in the child process: {e}"), 0);
+            return r.sub;
+        }
+        if !log.opened {
+            panic!("C16 harness: forked process did not open the manager; it reported: {}", log.raw);
+        }
+        child = Some(log);
+    }
     let ctl = PointCtl::new();
     ctl.install();
-    if let Crash::AtPoint(k) = crash {
+    if let (Crash::AtPoint(k), false) = (crash, kill) {
         ctl.set_crash(Some(k));
     }
-    let mut r = Runner { dir, tenant: &tenant_s, pm: None, sub: Sub::default(), crash };
     let mut m = Model::default();
     let mut crashed = false;
-    match open(dir, &tenant_s) {
-        Ok(pm) => r.pm = Some(pm),
-        Err(e) => {
-            r.fail("C16/open/error".into(), e, 0);
-            PointCtl::uninstall();
-            return r.sub;
+    // operations acknowledged since the storage was last flushed / closed cleanly
+    let mut unflushed = 0u64;
+    if !kill {
+        match open(dir, &tenant_s) {
+            Ok(pm) => r.pm = Some(pm),
+            Err(e) => {
+                r.fail("C16/open/error".into(), e, 0);
+                PointCtl::uninstall();
+                return r.sub;
+            }
         }
     }
     'hist: for (step, ev) in case.events.iter().enumerate() {
         let Some((o, resolved)) = resolve(ev, &m) else { continue };
+        // while the child's part of the history lasts, its report stands for the execution
+        let in_child = kill && !crashed;
         r.sub.sig_parts.push(format!("{}{}", o.kind(), resolved));
         r.sub.steps += 1;
         if let Op::Restart = o {
             r.sub.probes.push("restart_mid_history");
+            unflushed = 0;
+            if in_child {
+                if !child.as_ref().unwrap().restarted.contains(&step) {
+                    panic!("C16 harness: forked process did not reach the restart at step {step}; it reported: {}", child.as_ref().unwrap().raw);
+                }
+                continue; // the clean restart happened inside the child (checked by the unwind kind and the crash-free execution)
+            }
             if r.restart_and_check("clean restart", &[&m], step).is_none() {
                 break 'hist;
             }
@@ -426,24 +645,55 @@ fn run_history(case: &Case, crash: Crash, dir: &Path) -> Sub {
         let mut after = m.clone();
         apply(&o, &mut after);
         let hits_before = ctl.hit_count();
-        let res = {
+        let res: Done = if in_child {
+            let log = child.as_ref().unwrap();
+            if log.acked.contains(&step) {
+                Done::Ret(Ok(()))
+            } else if let Some(e) = log.errs.get(&step) {
+                Done::Ret(Err(e.clone()))
+            } else if let Some((s, at)) = &log.in_flight {
+                if *s != step {
+                    panic!("C16 harness: forked process was in step {s}, expected {step}; it reported: {}", log.raw);
+                }
+                match at {
+                    Some(p) => Done::Died(p.clone()),
+                    None => panic!("C16 harness: forked process died inside step {step} without being killed ({:?}); it reported: {}", log.end, log.raw),
+                }
+            } else {
+                panic!("C16 harness: forked process never reached step {step}; it reported: {}", log.raw);
+            }
+        } else {
             let pm = r.pm.as_ref().unwrap();
-            points::run_process(|| exec(&o, pm, &tenant_s))
+            match points::run_process(|| exec(&o, pm, &tenant_s)) {
+                Ok(x) => Done::Ret(x),
+                Err(()) => Done::Died(ctl.crashed_at().unwrap_or_default()),
+            }
         };
         if ctl.hit_count() > hits_before {
             r.sub.had_pointed_op = true;
         }
         match res {
-            Ok(Ok(())) => {
+            Done::Ret(Ok(())) => {
                 m = after;
                 r.sub.ops_done += 1;
+                if matches!(o, Op::Flush | Op::Checkpoint) {
+                    unflushed = 0;
+                } else {
+                    unflushed += 1;
+                }
                 if !crashed && crash == Crash::AfterOp(r.sub.ops_done) {
                     crashed = true;
                     r.sub.crashed_at = Some(format!("after {}", o.kind()));
                     if matches!(o, Op::UpdateNode { .. } | Op::UpdateEdge { .. }) {
                         r.sub.probes.push("crash_right_after_acknowledged_update");
                     }
-                    if r.restart_and_check(&format!("crash after acknowledged {}", o.kind()), &[&m], step).is_none() {
+                    if kill {
+                        r.sub.probes.push("real_kill_between_operations");
+                        if unflushed > 0 {
+                            r.sub.probes.push("real_kill_with_unflushed_acknowledged_writes");
+                        }
+                    }
+                    if r.restart_and_check(&format!("{word} after acknowledged {}", o.kind()), &[&m], step).is_none() {
                         break 'hist;
                     }
                     if !continue_after {
@@ -454,19 +704,24 @@ fn run_history(case: &Case, crash: Crash, dir: &Path) -> Sub {
                     }
                 }
             }
-            Ok(Err(e)) => {
+            Done::Ret(Err(e)) => {
                 r.fail(format!("C16/op_refused/{}", o.kind()), format!("{} returned an error in a fault-free configuration: {e}", o.kind()), step);
                 break 'hist;
             }
-            Err(()) => {
+            Done::Died(at) => {
                 crashed = true;
-                let at = ctl.crashed_at().unwrap_or_default();
                 r.sub.crashed_at = Some(at.clone());
                 r.sub.probes.push("crash_inside_persist");
                 if at.ends_with(".after_wal") {
                     r.sub.probes.push("crash_between_wal_and_storage_write");
                 }
-                let how = format!("crash at {at} inside {}", o.kind());
+                if kill {
+                    r.sub.probes.push("real_kill_inside_persist");
+                    if unflushed > 0 {
+                        r.sub.probes.push("real_kill_with_unflushed_acknowledged_writes");
+                    }
+                }
+                let how = format!("{word} at {at} inside {}", o.kind());
                 match r.restart_and_check(&how, &[&before, &after], step) {
                     None => break 'hist,
                     Some(i) => {
@@ -480,6 +735,7 @@ fn run_history(case: &Case, crash: Crash, dir: &Path) -> Sub {
                         m = if i == 0 { before } else { after };
                     }
                 }
+                unflushed = 0;
                 if !continue_after {
                     r.sub.summary = format!("p@{at}:{}", m.canon());
                     r.sub.points = ctl.hits();
@@ -491,8 +747,21 @@ fn run_history(case: &Case, crash: Crash, dir: &Path) -> Sub {
         }
     }
     if r.sub.violations.is_empty() {
-        // end of history: clean shutdown, restart, recover
-        r.restart_and_check("clean restart at end of history", &[&m], case.events.len());
+        if kill && !crashed {
+            // the child ran the whole history and died with the manager open
+            if !child.as_ref().map(|l| l.ended).unwrap_or(false) {
+                panic!("C16 harness: forked process did not finish the history; it reported: {}", child.as_ref().unwrap().raw);
+            }
+            r.sub.crashed_at = Some("after last operation".into());
+            r.sub.probes.push("real_kill_after_last_operation");
+            if unflushed > 0 {
+                r.sub.probes.push("real_kill_with_unflushed_acknowledged_writes");
+            }
+            r.restart_and_check("real kill after the last operation", &[&m], case.events.len());
+        } else {
+            // end of history: clean shutdown, restart, recover
+            r.restart_and_check("clean restart at end of history", &[&m], case.events.len());
+        }
     }
     r.pm = None;
     r.sub.summary = format!("end:{}", m.canon());
@@ -524,12 +793,12 @@ impl Scenario for C16 {
     }
     fn runs(&self, tier: Tier) -> u64 {
         match tier {
-            Tier::Quick => 96,
+            Tier::Quick => 64,
             Tier::Thorough => 6000,
         }
     }
     fn rule(&self) -> &'static str {
-        "history = PRNG-generated sequence (1..8 ops, ids 1..5, 3 labels, 2 types, 3 keys) of persist_create_node/edge, persist_delete_*, persist_update_*_properties (always the full property map, so merge and replace readings agree), flush, checkpoint and clean restart for one tenant; executed once crash-free and then once per crash position: every H4 point passed (process crash inside the operation) and every boundary between operations; each sub-execution = crash, drop manager, reopen, recover(tenant), compare with the model (in-flight op applied wholly or not at all), optionally continue the history on the restarted manager and compare again at the end. Non-trivial = at least one operation with H4 points ran and at least one crash fired inside an operation. Distinct = hash of the sequence of (op kind, resolved entity ranks)."
+        "history = PRNG-generated sequence (1..8 ops, ids 1..5, 3 labels, 2 types, 3 keys) of persist_create_node/edge, persist_delete_*, persist_update_*_properties (always the full property map, so merge and replace readings agree), flush, checkpoint and clean restart for one tenant; executed once crash-free and then once per crash position: every H4 point passed (process crash inside the operation) and every boundary between operations; each sub-execution = crash, reopen, recover(tenant), compare with the model (in-flight op applied wholly or not at all), optionally continue the history on the restarted manager and compare again at the end. The crash is, per case (knob real_kill, 1 in 3), either an unwind at the position + drop of the manager, or a REAL kill: the process up to the crash position runs in a fork()ed child that _exits there with the manager open (nothing closed or flushed) and reports its acknowledged operations through a pipe; the real-kill kind also has the position 'after the last operation'. Non-trivial = at least one operation with H4 points ran and at least one crash fired inside an operation. Distinct = hash of the sequence of (op kind, resolved entity ranks)."
     }
     fn real_components(&self) -> Vec<&'static str> {
         vec![
@@ -537,14 +806,20 @@ impl Scenario for C16 {
             "samyama::persistence::PersistentStorage over real RocksDB on tmpfs",
             "samyama::persistence::Wal through verif::fs in passthrough mode (real files)",
             "samyama::persistence::TenantManager",
+            "process death in the real-kill kind: a real child process (fork) that ends by _exit with every file still open",
         ]
     }
     fn stub_components(&self) -> Vec<&'static str> {
-        vec!["process kill = unwind at an H4 point + drop of the PersistenceManager (RocksDB closes its files; a completed put_cf/delete_cf survives exactly as it survives kill -9); power loss is not modelled for RocksDB-backed state"]
+        vec![
+            "unwind kind of crash (two cases in three): process kill = unwind at an H4 point + drop of the PersistenceManager (RocksDB and the WAL close cleanly, memtables are flushed); it exercises atomicity of the in-flight operation but only ASSUMES that a completed put/delete survives a kill",
+            "real-kill kind (one case in three): the kill is real (_exit of a fork()ed child with the manager open), the machine is not: power loss / loss of the page cache is not modelled for RocksDB-backed state",
+        ]
     }
     fn assumptions(&self) -> Vec<&'static str> {
         vec![
-            "recover() never reads the samyama WAL (verified by reading PersistenceManager::recover: storage.scan_nodes/scan_edges only), so the WAL's BufWriter being flushed by Drop instead of lost does not change what recover returns",
+            "unwind kind only: recover() never reads the samyama WAL (verified by reading PersistenceManager::recover: storage.scan_nodes/scan_edges only), so the WAL's BufWriter being flushed by Drop instead of lost does not change what recover returns. The real-kill kind does not need this: nothing is flushed by the dying process, whatever recover reads",
+            "real-kill kind: 'a completed storage write survives a process crash' is no longer assumed, it is exercised — the child dies without closing RocksDB, so a write that lived only in process memory (memtable without RocksDB-WAL record, user-space buffer) is lost and shows as C16/recover/*/after_real_kill. What IS assumed: the child after fork() behaves like a freshly started process (it runs on the only thread that exists in it; the parent retires RocksDB's idle process-wide background threads before the fork so the child inherits empty pools, see kit::forkproc), and the clean restarts inside the child's part of the history are not checked there (the crash-free execution and the unwind kind check them)",
+            "acknowledged = the child wrote its `ack` record to the pipe (write(2) returned) after persist_* returned Ok and before doing anything else; the parent's model is built from these records only",
             "between two adjacent H4 points / operation boundaries nothing observable to recover happens (each persist_* performs at most one RocksDB write, which is atomic)",
             "property updates carry the full resulting property map, so the merge-or-replace ambiguity of 'new properties to set' does not enter the oracle; removal of a property is never generated",
             "timestamps (created_at/updated_at) and the version field are ignored",
@@ -568,16 +843,21 @@ impl Scenario for C16 {
             "op_checkpoint",
             "op_flush",
             "node_id_reused_after_delete",
+            "real_kill_inside_persist",
+            "real_kill_between_operations",
+            "real_kill_after_last_operation",
+            "real_kill_with_unflushed_acknowledged_writes",
         ]
     }
     fn generate(&self, s: &mut Streams, _run_index: u64, _tier: Tier) -> Case {
         let mut case = Case::new("C16");
         let n = s.knobs.short_len(1, 8);
         let boundary = s.knobs.chance(1, 4);
-        let allow_restart = s.knobs.chance(1, 3);
+        let allow_restart = s.knobs.chance(1, 4);
         case.knobs.insert("tenant".into(), json!(s.knobs.below(2)));
-        case.knobs.insert("continue_after_crash".into(), json!(s.knobs.chance(1, 3)));
+        case.knobs.insert("continue_after_crash".into(), json!(s.knobs.chance(1, 4)));
         case.knobs.insert("boundary_values".into(), json!(boundary));
+        case.knobs.insert("real_kill".into(), json!(s.knobs.chance(1, 4)));
         let r = &mut s.workload;
         // a node first, so that updates and relationships are possible early
         if r.chance(3, 4) {
@@ -649,13 +929,16 @@ impl Scenario for C16 {
                 o.probe(p);
             }
             if let Some(at) = &sub.crashed_at {
-                if at.starts_with("after ") {
-                    o.fault("process_crash.between_operations");
+                let kind = if sub.kill { "process_kill" } else { "process_crash" };
+                if at == "after last operation" {
+                    o.fault(&format!("{kind}.after_last_operation"));
+                } else if at.starts_with("after ") {
+                    o.fault(&format!("{kind}.between_operations"));
                 } else {
-                    o.fault(&format!("process_crash.{at}"));
+                    o.fault(&format!("{kind}.{at}"));
                 }
             }
-            summaries.push(sub.summary.clone());
+            summaries.push(format!("{}{}", if sub.kill { "K" } else { "" }, sub.summary));
             for v in sub.violations {
                 if seen_sigs.insert(v.signature.clone()) {
                     o.violate(v);
@@ -663,8 +946,8 @@ impl Scenario for C16 {
             }
         };
         if let Some(p) = case.pin() {
-            let crash = Crash::from_pin(p);
-            let sub = run_history(case, crash, &rd.sub("pin"));
+            let (crash, kill) = Crash::from_pin(p);
+            let sub = run_history(case, crash, kill, &rd.sub("pin"));
             o.class_key = hash_str(&sub.sig_parts.join(","));
             o.nontrivial = sub.had_pointed_op;
             absorb(&mut o, sub, &mut summaries);
@@ -672,7 +955,8 @@ impl Scenario for C16 {
             return o;
         }
         // crash-free execution: also lists the points passed and counts the operations
-        let dry = run_history(case, Crash::None, &rd.sub("dry"));
+        let kill = case.knob_bool("real_kill", false);
+        let dry = run_history(case, Crash::None, false, &rd.sub("dry"));
         rd.remove_sub("dry");
         for part in &dry.sig_parts {
             for kind in ["delete_node", "delete_edge", "update_node", "update_edge", "create_edge", "checkpoint", "flush"] {
@@ -692,7 +976,7 @@ impl Scenario for C16 {
         if !dry_failed_early {
             for k in 0..n_points {
                 let name = format!("p{k}");
-                let sub = run_history(case, Crash::AtPoint(k), &rd.sub(&name));
+                let sub = run_history(case, Crash::AtPoint(k), kill, &rd.sub(&name));
                 rd.remove_sub(&name);
                 if sub.crashed_at.is_some() {
                     crashes_in_op += 1;
@@ -700,10 +984,16 @@ impl Scenario for C16 {
                 absorb(&mut o, sub, &mut summaries);
                 evals += 1;
             }
-            // boundaries between operations (the boundary after the last one is the crash-free run)
-            for j in 1..n_ops {
+            // boundaries between operations; the boundary after the last one is the
+            // crash-free run for the unwind kind (unwind + drop there IS a clean shutdown),
+            // but a position of its own for a real kill
+            let last = if kill { n_ops + 1 } else { n_ops };
+            for j in 1..last {
                 let name = format!("b{j}");
-                let sub = run_history(case, Crash::AfterOp(j), &rd.sub(&name));
+                if kill && j == n_ops {
+                    o.probe("real_kill_after_last_operation");
+                }
+                let sub = run_history(case, Crash::AfterOp(j), kill, &rd.sub(&name));
                 rd.remove_sub(&name);
                 absorb(&mut o, sub, &mut summaries);
                 evals += 1;
